@@ -131,10 +131,10 @@ def _desc(draw):
         box_ix=draw(st.integers(0, 2)),
         fill_seed=draw(st.integers(0, 2**31 - 1)),
     )
-    # un-stubbed numpy.histogramdd in the constructor (see _cheap_histogramdd) for ~1 descriptor in 150; chosen by a
-    # hash of the descriptor (Hypothesis over-samples the end points of any range, and such a case costs 1.7 s / 800 MB)
     if perm is not None:
         d['perm'] = list(perm)
+    # un-stubbed numpy.histogramdd in the constructor (see _cheap_histogramdd) for ~1 descriptor in 150; chosen by a
+    # hash of the descriptor (Hypothesis over-samples the end points of any range, and such a case costs 1.7 s / 800 MB)
     if zlib.crc32(dumps(d).encode()) % 150 == 0:
         d['real_hist'] = True
     return d
@@ -389,7 +389,7 @@ def _run(d, root, start, end):
     # ---- halo set and order ----
     hid = np.asarray(H['hid'])
     if hid.shape != (nh,):
-        raise Violation('staging-halo-count', 'hid shape %r, expected %d halos from slabs [%d,%d)' % (hid.shape, nh, start, end))
+        raise Violation('staging-halo-set-wrong', 'hid shape %r, expected %d halos from slabs [%d,%d)' % (hid.shape, nh, start, end))
     got_ids = [int(v) for v in hid]
     if sorted(got_ids) != sorted(row_of):
         lost = sorted(set(row_of) - set(got_ids))[:5]
@@ -435,28 +435,36 @@ def _run(d, root, start, end):
         if msg:
             bad[k] = msg
     deferred = None
+
+    def in_file_order(k):  # '' or a remark: the column was left exactly as concatenated from the files
+        same = (not file_sorted) and _first_bad(H[k], unsorted_exp[k]) is None
+        return ' (it is still in file order, i.e. it was left out of the sort by id)' if same else ''
+
     if bad:
         ctx = 'order=%s slabs[%d,%d) nh=%r flags(AB=%s,shear=%s,expvel=%s)' % (d['order'], start, end, d['nh'], d['want_AB'], d['want_shear'], d['want_expvel'])
         # (1) anything that is not one of the two separately tracked root causes is reported first
         others = [k for k in bad if k not in ('hc', 'hrvir', 'hveldev')]
         if others:
             k = sorted(others)[0]
-            in_file_order = (not file_sorted) and _first_bad(H[k], unsorted_exp[k]) is None
-            raise Violation('staging-halo-%s-%s' % (k, 'not-permuted' if in_file_order else 'misaligned'), '%s does not describe the halo whose id is in the same row: %s; %s' % (k, bad[k], ctx))
+            raise Violation('staging-halo-%s-misaligned' % k, '%s does not describe the halo whose id is in the same row%s: %s; %s' % (k, in_file_order(k), bad[k], ctx))
         if 'hveldev' in bad:
+            tiled = None
             if d.get('veldev_1d'):
+                # what `np.concatenate((v, v, v)).reshape(-1, 3)` gives per slab (three copies laid end to end and cut
+                # into rows of three), carried to the output row of each halo: the separately tracked root cause
+                tiled = np.concatenate([np.concatenate((t[vd_name],) * 3).reshape(-1, 3) for t in fx.halo_tables[start:end]])[rows]
+            if tiled is not None and _first_bad(H['hveldev'], tiled) is None:
                 deferred = Violation('staging-veldev-1d-not-row-aligned', "1-D velocity deviates ('using z randoms instead'): hveldev row is not (v,v,v) of the halo in that row: %s; %s" % (bad['hveldev'], ctx))
             else:
-                in_file_order = (not file_sorted) and _first_bad(H['hveldev'], unsorted_exp['hveldev']) is None
-                raise Violation('staging-halo-hveldev-%s' % ('not-permuted' if in_file_order else 'misaligned'), 'hveldev: %s; %s' % (bad['hveldev'], ctx))
+                raise Violation('staging-halo-hveldev-misaligned', 'hveldev does not describe the halo whose id is in the same row%s: %s; %s' % (in_file_order('hveldev'), bad['hveldev'], ctx))
         if deferred is None:
             # only hc / hrvir are wrong
-            fo = {k: (not file_sorted) and _first_bad(H[k], unsorted_exp[k]) is None for k in ('hc', 'hrvir') if k in bad}
+            fo = {k: bool(in_file_order(k)) for k in ('hc', 'hrvir') if k in bad}
             if len(fo) == 2 and all(fo.values()):
                 deferred = Violation('staging-hc-hrvir-not-permuted', 'hc and hrvir are still in file order while hid and the other per-halo arrays were sorted by id: hc %s; hrvir %s; %s' % (bad['hc'], bad['hrvir'], ctx))
             else:
                 k = sorted(fo)[0]
-                raise Violation('staging-halo-%s-%s' % (k, 'not-permuted' if fo[k] else 'misaligned'), '%s: %s; %s' % (k, bad[k], ctx))
+                raise Violation('staging-halo-%s-misaligned' % k, '%s does not describe the halo whose id is in the same row%s: %s; %s' % (k, in_file_order(k), bad[k], ctx))
 
     # ---- particles (checked even when a tracked halo-column finding is pending, so that it cannot hide them) ----
     _extra['particle_rows_compared'] += npt
